@@ -54,9 +54,14 @@
    the filter, it is executable (tidy_fromb, C11_tidy_fromb_sound) and it is discharged by computation in the
    examples (C11_lag_covered: the history of C11_lag_instance).  It is needed because a descriptor that died in one
    world only must be unknown to that world's reader for ever (otherwise a later record of the other world's live
-   watch would be handled differently); it is half of C02's cover invariant at synced states (CoverProofs.WInv.wi_tight:
-   no stale value in _wd_for_path) plus the missing half "no stale key in _path_for_wd", which WInv does not state;
-   CoverOutProofs.dinv preserves a FIXED set of dead descriptors and does not give it either.  Not derived here.
+   watch would be handled differently).  ON THE HISTORIES OF C02's SEQUENTIAL THEOREM THE HYPOTHESIS IS DISCHARGED: the
+   cover invariant (WInv with wi_pfw / wi_keys, about the UNFILTERED watch, mask WATCHDOG_ALL - the run tidy_from speaks
+   about) gives tidiness at every drained point (TidyCoverProofs.tidy_from_covered = C02_tidy_from), hence
+   C11_transparent_sequential_covered / C11_transparent_sequential_all_covered / C11_handler_sequential_covered /
+   C11_full_drained_covered: no tidy hypothesis, but [covered_hist C w ops] = no injected fault, well-formed initial file
+   system with the root a directory, covered operations and directory move-outs only, the operation after a move-out
+   producing a record for the unfiltered watch (CoverOutProofs.ops_x; C11_covered_hist_def).  Non-vacuity:
+   C11_covered_lag_nonvacuous, a covered history with a directory move-out on which the filtered reader lags.
    REPAIR OF F10e (c_fix_relabel / Reader.unlabel: _add_watch deletes the stale key of a descriptor that comes back under
    another path): no statement changed.  The stale key is read off the reader's own tables, which twins share
    (unlabel_twin, by conversion: with_mask / with_rec carry the flag), and it only shrinks _wd_for_path (unlabel_snd), so
@@ -71,7 +76,8 @@ Require Import WD.Gen.MaskTableGen WD.Proofs.MaskTableProofs WD.Proofs.C11Proofs
 Require Import WD.Proofs.C11KernelProofs WD.Proofs.C11ReaderProofs WD.Proofs.C11TwinProofs WD.Proofs.C11GroupProofs
                WD.Proofs.C11SeqProofs.
 Require Import WD.Model.Pipeline WD.Proofs.C11TieProofs WD.Proofs.C11FlatProofs WD.Proofs.C11StutterProofs WD.Proofs.C11InertProofs
-               WD.Proofs.C11LagProofs.
+               WD.Proofs.C11LagProofs WD.Proofs.C11CoverProofs.
+Require WD.Proofs.CoverProofs WD.Proofs.CoverOutProofs.
 
 (* The full property.  [events F full recursive h] = the events delivered to the handler of a watch
    with event filter F (None = no filter) over the operation history h; [paced] = the pacing condition
@@ -490,6 +496,59 @@ Theorem C11_tidy_fromb_sound : forall C full w ops, tidy_fromb C full w ops = tr
 Proof. exact tidy_fromb_sound. Qed.
 Print Assumptions C11_tidy_fromb_sound.
 
+(* ------------------------------------------------------------------ on the histories of C02: no tidy hypothesis *)
+(* [covered_hist C w ops]: a history of C02's sequential theorem (C02_cover_from_start_partial), stated for the
+   configuration C of the UNFILTERED watch (mask WATCHDOG_ALL). *)
+Theorem C11_covered_hist_def : forall C w ops, covered_hist C w ops <->
+  (c_faults C = [] /\ CoverProofs.wf_fs w /\ fisdir (c_root C) (w_fs w) = true /\ CoverOutProofs.ops_x C w None ops).
+Proof. exact covered_hist_def. Qed.
+Print Assumptions C11_covered_hist_def.
+
+Theorem C11_transparent_sequential_covered : forall F C full,
+  c_mask C = WATCHDOG_ALL -> visible F (c_recursive C) ->
+  forall w ops evs,
+    (c_recursive C = true -> c_fix_moveout C = true -> covered_hist C w ops) ->
+    run_from None C full w ops = Some evs ->
+    run_from F (with_mask C (kmask F (c_recursive C))) full w ops
+    = Some (filter (fun e => accepts F (ev_cls e)) evs).
+Proof. exact transparent_from_covered. Qed.
+Print Assumptions C11_transparent_sequential_covered.
+
+Theorem C11_transparent_sequential_all_covered : forall F C full,
+  c_mask C = WATCHDOG_ALL -> c_root C <> [] -> last_is_sep (c_root C) = false ->
+  forall w ops evs, Forall op_ok ops ->
+    (c_recursive C = true -> c_fix_moveout C = true -> covered_hist C w ops) ->
+    run_from None C full w ops = Some evs ->
+    run_from F (with_mask C (kmask F (c_recursive C))) full w ops
+    = Some (filter (fun e => accepts F (ev_cls e)) evs).
+Proof. exact transparent_from_all_covered. Qed.
+Print Assumptions C11_transparent_sequential_all_covered.
+
+Theorem C11_handler_sequential_covered : forall F C full,
+  c_mask C = WATCHDOG_ALL -> c_root C <> [] -> last_is_sep (c_root C) = false ->
+  forall w ops evsU, Forall op_ok ops ->
+    (c_recursive C = true -> c_fix_moveout C = true -> covered_hist C w ops) ->
+    run_from None C full w ops = Some evsU ->
+    exists evsF, run_from F (with_mask C (kmask F (c_recursive C))) full w ops = Some evsF /\
+      forall keptU keptF, skips None evsU keptU -> skips None evsF keptF ->
+        stutter_eq keptF (filter (fun e => accepts F (ev_cls e)) keptU).
+Proof. exact handler_sequential_covered. Qed.
+Print Assumptions C11_handler_sequential_covered.
+
+(* C11_full of the drained semantics with paced = paced_covered: paced_drained with its tidy clause replaced by
+   "repaired reader: the history is covered for the recursive configuration" *)
+Theorem C11_paced_covered_def : forall h, paced_covered h <->
+  (c_mask (dh_cfg h) = WATCHDOG_ALL /\ c_root (dh_cfg h) <> [] /\ last_is_sep (c_root (dh_cfg h)) = false /\
+   Forall op_ok (dh_ops h) /\
+   (forall full recursive, run_from None (with_rec (dh_cfg h) recursive) full (dh_world h) (dh_ops h) <> None) /\
+   (c_fix_moveout (dh_cfg h) = true -> covered_hist (with_rec (dh_cfg h) true) (dh_world h) (dh_ops h))).
+Proof. exact paced_covered_def. Qed.
+Print Assumptions C11_paced_covered_def.
+
+Theorem C11_full_drained_covered : C11_full dhist paced_covered events_drained.
+Proof. exact full_drained_covered. Qed.
+Print Assumptions C11_full_drained_covered.
+
 (* [run_one (pc_filter P)] is what the Pipeline model delivers for AOp o; ARead (whole queue); ATick delay;
    AEmit ... from a state whose buffer is idle (C03's pipeline_tie, with the class filter kept). *)
 Theorem C11_pipeline_tie_filtered : forall P s o w1 k1 r1 evs,
@@ -724,4 +783,23 @@ Example C11_lag_covered :
 Proof.
   split; [reflexivity|]. split; [apply visible_recursive|]. split; [reflexivity|].
   split; [apply tidy_fromb_sound; vm_compute; reflexivity|]. split; vm_compute; reflexivity.
+Qed.
+
+(* A COVERED HISTORY THAT LAGS (C11CoverProofs.lag_ops on CoverProofs.w0, recursive watch of /s/R, current code): mkdir R/b;
+   touch R/f; mv R/b O/x; write R/f; mkdir R/b; rmdir R/b.  It satisfies covered_hist (a proof from C02's operation
+   classes, not a computation), it is NOT regular for the filter [FileDeletedEvent, DirDeletedEvent] (the write after the
+   move-out queues IN_MODIFY/IN_OPEN/IN_CLOSE only, which that filter's mask excludes), it satisfies paced_covered, and the
+   filtered watch queues the two DirDeleted(R/b). *)
+Example C11_covered_lag_nonvacuous :
+  let F := Some [Concrete FileDeleted; Concrete DirDeleted] in
+  let C := CoverOutProofs.cfgo true in
+  covered_hist C CoverProofs.w0 lag_ops /\
+  paced_covered {| dh_cfg := C; dh_world := CoverProofs.w0; dh_ops := lag_ops |} /\
+  c_mask C = WATCHDOG_ALL /\ visible F (c_recursive C) /\ c_fix_moveout C = true /\
+  regular_fromb F C false CoverProofs.w0 lag_ops = false /\
+  option_map (map (fun e => (ev_cls e, ev_src e))) (run_from F (with_mask C (kmask F true)) false CoverProofs.w0 lag_ops)
+    = Some [(DirDeleted, CoverProofs.sub CoverProofs.pR 98); (DirDeleted, CoverProofs.sub CoverProofs.pR 98)].
+Proof.
+  split; [exact lag_covered|]. split; [exact lag_paced_covered|]. split; [reflexivity|]. split; [apply visible_recursive|].
+  split; [reflexivity|]. split; vm_compute; reflexivity.
 Qed.
